@@ -329,13 +329,14 @@ def is_blank(s):
     return s is None or s.strip() == ""
 
 
-def norm(t, keep_tail=True):
+def norm(t, keep_tail=True, host=False):
     """normal form of `≈ws`, written independently of the Lean model: absent text = empty text,
     whitespace-only text next to child elements is insignificant, prefix maps are not compared,
     attributes are a set, `xsi:type` values are compared as resolved names"""
     kids = [norm(c) for c in t["c"]]
     text = t["t"]
-    if kids:
+    if kids or host:
+        # (the host is a typed model: its whitespace-only text is never generic content)
         text = None if is_blank(text) else text
     elif text == "":
         text = None
